@@ -68,6 +68,4 @@ class Meshcop(TLVStruct):
 
     # Seen in a dataset imported through iOS companion app
     wakeup_channel: bytes = tlv_entry(74)
-    discovery_request: bytes = tlv_entry(128)
-    discovery_response: bytes = tlv_entry(129)
     joiner_advertisement: bytes = tlv_entry(241)
